@@ -27,6 +27,8 @@ def build(world):
             I.await_hook = c09_c.interference
             I.loop_override = {(c09_c.FLUSH_Q, 0): c09_c.loop_contract()}
         units.append(Unit(f"{c09_c.FLUSH_Q}[{v[-2:]}][interfering]", c09_c.FLUSH_Q, c09_c.flush_contract(), receiver=cls, setup=setup))
+    # guarantee side of the rely: what an application send may do to the shared buffer (outgoing set handler and Gateway.send)
+    units += [u for u in gu.send_units(world) if "handle_set" in u.name or "Gateway.send[" in u.name]
     return units
 
 
@@ -94,3 +96,12 @@ def bounded(world, tier, seed, rep):
 def bounded_search(world, unit_name):
     r = bounded(world, "quick", 0, None)
     return [dict(r["native_failure"], clause="C09/native-race")] if r["native_failure"] else []
+
+
+def rebuild_inlined(world, failing_helpers):
+    """Stale helper clauses: re-prove with the bodies of the functions whose helper clauses failed inlined into their callers."""
+    bad = {h["unit"].split("[")[0] for h in failing_helpers}
+    units = build(world)
+    for u in units:
+        u.no_contract_for = tuple(bad)
+    return units
